@@ -95,7 +95,7 @@ func vC16ShowAllowed(a *signaling.AllowedIps) string {
 		if err != nil {
 			return "unreadable:" + e
 		}
-		parts = append(parts, vC16NetTok(n.IP, n.Mask))
+		parts = append(parts, vC16CanonNet(n.IP, n.Mask))
 	}
 	return strings.Join(parts, ",")
 }
